@@ -332,11 +332,28 @@ class Grammar:
                     changed = True
                     self.distanceToTerminal[sym] = val
 
-        for sym in all_sym:
-            if sym in reachability[sym]:  # symbol is recursive
-                self.recursive_prods.add(sym)
+        # A symbol is recursive when it can derive a program that contains it: only symbols with a finite program take
+        # part (a production that mentions a type nothing can be built for is never completed, so no cycle runs through it).
+        productive = {sym for sym in all_sym if self.distanceToTerminal[sym] < INF_VALUE}
+        derives: dict[type, list[type]] = {}
+        for sym in productive:
+            if is_abstract(sym):
+                dsts = list(self.alternatives.get(sym, []))
+            elif is_terminal(sym, self.non_terminals):
+                dsts = []
             else:
-                pass
+                dsts = list(explode_generics([argt for (_, argt) in get_arguments(sym)]))
+            derives[sym] = [d for d in dsts if d in productive]
+        for sym in productive:
+            seen: set[type] = set()
+            todo = list(derives[sym])
+            while todo:
+                d = todo.pop()
+                if d not in seen:
+                    seen.add(d)
+                    todo.extend(derives.get(d, []))
+            if sym in seen:
+                self.recursive_prods.add(sym)
 
     def get_weights(self):
         """The weight of every symbol: as normalised for this grammar (update_weights), otherwise as declared on the
